@@ -15,13 +15,16 @@ class OriginalLocation:
                  path_maker_type,  # type: PathMakerType
                  volume_top_dir,
                  ):  # type: (...) -> str
-        normalized_path = os.path.normpath(path)
-        basename = os.path.basename(normalized_path)
-        parent = self.fs.parent_realpath2(normalized_path)
+        # The parent is resolved from the path as the kernel sees it: a
+        # lexical os.path.normpath() would turn 'link/../x' into 'x', which
+        # is a different entry when 'link' is a symlink.
+        stripped = _strip_trailing_slashes_and_dots(path)
+        basename = os.path.basename(stripped)
+        parent = self.fs.parent_realpath2(stripped)
         parent = self._calc_parent_path(parent, volume_top_dir,
                                         path_maker_type)
 
-        return os.path.join(parent, basename)
+        return os.path.normpath(os.path.join(parent, basename))
 
     @staticmethod
     def _calc_parent_path(parent,  # type: str
@@ -35,3 +38,10 @@ class OriginalLocation:
                     volume_top_dir + os.path.sep):
                 parent = parent[len(volume_top_dir + os.path.sep):]
             return parent
+
+
+def _strip_trailing_slashes_and_dots(path):
+    while len(path) > 1 and (path.endswith(os.path.sep) or
+                             path.endswith(os.path.sep + os.path.curdir)):
+        path = path[:-1]
+    return path
